@@ -282,7 +282,7 @@ func (w *World) AuthorizeRaw(rawQuery string, c Consent) (out *AuthzOut) {
 	if err != nil {
 		out.Err, out.ErrName = err, ErrName(err)
 		w.P.WriteAuthorizeError(ctx, rec, ar, err)
-		parseAuthz(rec, out)
+		ParseAuthz(rec, out)
 		return
 	}
 	if c.Deny {
@@ -292,7 +292,7 @@ func (w *World) AuthorizeRaw(rawQuery string, c Consent) (out *AuthzOut) {
 		}
 		out.Err, out.ErrName = e, ErrName(e)
 		w.P.WriteAuthorizeError(ctx, rec, ar, e)
-		parseAuthz(rec, out)
+		ParseAuthz(rec, out)
 		return
 	}
 	if c.Scopes == nil {
@@ -324,15 +324,16 @@ func (w *World) AuthorizeRaw(rawQuery string, c Consent) (out *AuthzOut) {
 	if err != nil {
 		out.Err, out.ErrName = err, ErrName(err)
 		w.P.WriteAuthorizeError(ctx, rec, ar, err)
-		parseAuthz(rec, out)
+		ParseAuthz(rec, out)
 		return
 	}
 	w.P.WriteAuthorizeResponse(ctx, rec, ar, resp)
-	parseAuthz(rec, out)
+	ParseAuthz(rec, out)
 	return
 }
 
-func parseAuthz(rec *httptest.ResponseRecorder, out *AuthzOut) {
+// ParseAuthz parses what an authorization-endpoint writer wrote.
+func ParseAuthz(rec *httptest.ResponseRecorder, out *AuthzOut) {
 	finish(rec, &out.Out)
 	out.Params = url.Values{}
 	loc := rec.Header().Get("Location")
